@@ -183,11 +183,11 @@ func (p *parser) on_parser_qualif(assoc Token, _ Token, prec Token, _ Token) *as
 
 	var err error
 	q.Precedence, err = strconv.Atoi(string(prec.Str))
-	if err != nil {
-		panic(err)
-	}
-	if q.Precedence <= 0 {
-		panic("not-reached")
+	if err != nil || q.Precedence <= 0 {
+		// The lexer only guarantees a sequence of digits: it can still be
+		// zero or too large for an int.
+		p.errs.Errorf(prec.Pos, "invalid precedence %s: must be a positive integer", prec.Str)
+		q.Precedence = 1
 	}
 
 	return q
